@@ -337,10 +337,13 @@ static int bytestream_bsend(struct xcm_socket *conn_s, const void *buf,
 	int rc = xcm_tp_socket_send(conn_s, buf + sent, left);
 
 	if (rc < 0) {
+	    /* bytes already accepted by the transport are part of the
+	       stream; report them rather than a failure (any error
+	       condition will be seen by the next call) */
 	    if (errno != EAGAIN)
-		return -1;
+		return sent > 0 ? sent : -1;
 	    if (socket_wait(conn_s, XCM_SO_SENDABLE) < 0)
-		return -1;
+		return sent > 0 ? sent : -1;
 	} else
 	    sent += rc;
     } while (sent < len);
